@@ -112,6 +112,103 @@ pub fn semw_ret_case(kind: &str, n: u128, shadow: u64) -> Option<String> {
     Some(format!("semw\t{input}\ttype={rt};diag={dg}\tok"))
 }
 
+/// arities of the standard library (stdgates.inc as the analyser provides it) and of the built-in gate
+const STD_GATES: &[(&str, usize, usize)] = &[
+    ("x", 0, 1), ("y", 0, 1), ("z", 0, 1), ("h", 0, 1), ("s", 0, 1), ("sdg", 0, 1), ("t", 0, 1), ("tdg", 0, 1), ("sx", 0, 1), ("id", 0, 1),
+    ("p", 1, 1), ("rx", 1, 1), ("ry", 1, 1), ("rz", 1, 1), ("phase", 1, 1), ("u1", 1, 1), ("u2", 2, 1), ("u3", 3, 1),
+    ("cx", 0, 2), ("cy", 0, 2), ("cz", 0, 2), ("ch", 0, 2), ("swap", 0, 2), ("CX", 0, 2), ("cp", 1, 2), ("crx", 1, 2), ("cry", 1, 2), ("crz", 1, 2),
+    ("cphase", 1, 2), ("cu", 4, 2), ("ccx", 0, 3), ("cswap", 0, 3),
+];
+
+/// C09 for signatures: gate arity, the types of gate parameters and qubits, subroutine parameter count,
+/// parameter types and return type, and the table's gate listing.
+pub fn semw_sig_case(rng: &mut Rng) -> String {
+    let with_std = rng.below(2) == 0;
+    let mut text = String::new();
+    if with_std {
+        text.push_str("include \"stdgates.inc\";\n");
+    }
+    // expected (name, type rendering) of every user symbol, in declaration order
+    let mut want: Vec<(String, String)> = Vec::new();
+    let mut user_gates: Vec<(String, usize, usize)> = Vec::new();
+    let n_items = 1 + rng.below(4);
+    let ptypes: &[(&str, &str)] = &[
+        ("int[8]", "Int(Some(8), False)"), ("int", "Int(None, False)"), ("uint[16]", "UInt(Some(16), False)"), ("float[32]", "Float(Some(32), False)"),
+        ("float", "Float(None, False)"), ("angle[4]", "Angle(Some(4), False)"), ("bool", "Bool(False)"), ("bit", "Bit(False)"),
+        ("bit[4]", "BitArray(D1(4), False)"), ("qubit", "Qubit"), ("qubit[2]", "QubitArray(D1(2))"), ("complex[float[64]]", "Complex(Some(64), False)"),
+        ("duration", "Duration(False)"),
+    ];
+    let rtypes: &[(&str, &str)] = &[
+        ("int[8]", "Int(Some(8), True)"), ("uint[16]", "UInt(Some(16), True)"), ("float[64]", "Float(Some(64), True)"), ("bit", "Bit(True)"),
+        ("bool", "Bool(True)"), ("angle[8]", "Angle(Some(8), True)"), ("bit[3]", "BitArray(D1(3), True)"),
+    ];
+    for i in 0..n_items {
+        if rng.below(2) == 0 {
+            let np = rng.below(4) as usize;
+            let nq = 1 + rng.below(3) as usize;
+            let name = format!("ug{i}");
+            let ps: Vec<String> = (0..np).map(|j| format!("a{i}_{j}")).collect();
+            let qs: Vec<String> = (0..nq).map(|j| format!("w{i}_{j}")).collect();
+            let pl = if np == 0 { String::new() } else { format!("({})", ps.join(", ")) };
+            text.push_str(&format!("gate {name}{pl} {} {{ }}\n", qs.join(", ")));
+            for p in &ps {
+                want.push((p.clone(), "Angle(None, True)".into()));
+            }
+            for q in &qs {
+                want.push((q.clone(), "Qubit".into()));
+            }
+            want.push((name.clone(), format!("Gate({np}, {nq})")));
+            user_gates.push((name, np, nq));
+        } else {
+            let np = rng.below(5) as usize;
+            let name = format!("uf{i}");
+            let mut ps = Vec::new();
+            for j in 0..np {
+                let (t, r) = ptypes[rng.below(ptypes.len() as u64) as usize];
+                ps.push(format!("{t} b{i}_{j}"));
+                want.push((format!("b{i}_{j}"), r.to_string()));
+            }
+            let (rt, rr) = if rng.below(3) == 0 { ("", "Void") } else { rtypes[rng.below(rtypes.len() as u64) as usize] };
+            let arrow = if rt.is_empty() { String::new() } else { format!(" -> {rt}") };
+            text.push_str(&format!("def {name}({}){arrow} {{ }}\n", ps.join(", ")));
+            want.push((name, format!("SubroutineDef(SubroutineDef {{ num_params: {np}, return_type: {rr} }})")));
+        }
+    }
+    let o = run_sema(&text);
+    let flat = text.replace('\n', " ");
+    if let Some(p) = &o.panic {
+        return format!("semw\tsig\t{flat}\tFAIL C03: analysis panicked on an error-free program: {}", &p[..p.len().min(90)]);
+    }
+    if o.any_syntax {
+        return format!("semw\tsig\t{flat}\tFAIL C04: a generated signature has syntax diagnostics");
+    }
+    // user symbols in declaration order: those that are neither built-in constants nor library gates
+    let got: Vec<(String, String)> = o.symbols.iter().filter(|(n, _)| want.iter().any(|(w, _)| w == n)).cloned().collect();
+    if got != want {
+        let i = got.iter().zip(want.iter()).position(|(a, b)| a != b).unwrap_or(got.len().min(want.len()));
+        return format!("semw\tsig\t{flat}\tFAIL C09: symbol {:?} is recorded as {:?}, the declaration says {:?}", want.get(i).map(|x| &x.0), got.get(i).map(|x| &x.1), want.get(i).map(|x| &x.1));
+    }
+    if !o.errors.is_empty() {
+        return format!("semw\tsig\t{flat}\tFAIL C09: diagnostics on well-formed signatures: {:?}", o.errors.iter().map(|e| &e.0).collect::<Vec<_>>());
+    }
+    // the gate listing: the library (if included) and the user's gates -- and nothing else (the built-in U is
+    // neither, and the property does not list it)
+    let mut exp: Vec<(String, usize, usize)> = Vec::new();
+    if with_std {
+        exp.extend(STD_GATES.iter().map(|(n, a, b)| (n.to_string(), *a, *b)));
+    }
+    exp.extend(user_gates);
+    let mut gl = o.gates.clone();
+    gl.sort();
+    exp.sort();
+    if gl != exp {
+        let extra: Vec<_> = gl.iter().filter(|g| !exp.contains(g)).collect();
+        let missing: Vec<_> = exp.iter().filter(|g| !gl.contains(g)).collect();
+        return format!("semw\tsig\t{flat}\tFAIL C09: the gate listing differs from the declared gates: unexpected {extra:?}, missing {missing:?}");
+    }
+    format!("semw\tsig\t{flat}\tok")
+}
+
 pub fn run(args: &[String]) {
     silence_panics();
     let mut w = out();
@@ -176,6 +273,10 @@ pub fn run(args: &[String]) {
                 }
             }
         }
+    }
+    // gate and subroutine signatures, the gate listing
+    for _ in 0..arg_u64(args, "--signatures", 400) {
+        writeln!(w, "{}", semw_sig_case(&mut rng)).unwrap();
     }
     for kind in ["bool", "duration", "stretch"] {
         for is_const in [false, true] {
